@@ -54,6 +54,11 @@ add("C07", ENGINE_W, "fault_enumeration", "deterministic fault enumeration: ever
     "Per seeded history a dry run lists every storage call; every single fault position x error kind is then executed at the interface level (both stores) or the SQL-driver level (SQLite), plus sampled multi-fault patterns and VFS-level IOERR/FULL/short-write windows; each execution ends in a fault-free tail. Oracles: no false success, no change on failure, no TOFU on a failing read, tail builds on the last committed state, no wedge / leaked handle / connection in use.",
     "Injected faults are fail-stop and limited to what the real stores can do. " + BASE_NOTE, "DESIGN.md 3.6, 5/C07")
 
+ENGINE_NET = "engine-net"
+add("C13", ENGINE_NET, "fault_enumeration", "deterministic fault enumeration on the fake clock: every distribution of 0..4 transient failures over get-latest/fetch-proof/update, cancellation at every call and backoff sleep, recording witness (stub and real)",
+    "FeedOnce runs on the synctest fake clock against a recording witness (stub, or the real witness through the real witnessAdapter, optionally with a competing writer) and a harness log party; per seeded shape all 121 failure patterns and all cancellation points are executed and the recorded calls are checked per attempt.",
+    BASE_NOTE, "DESIGN.md 5/C13")
+
 NOT_YET = {}
 
 
@@ -91,6 +96,8 @@ def main():
         "engines": [
             {"name": ENGINE_W, "path": "/verif/sim", "serves_properties": sorted(k for k, v in CHECKS.items() if v["engine"] == ENGINE_W),
              "kind_free_text": "real witness + real stores (in-memory, file-backed SQLite) behind a storage seam, harness clients, seeded quiescence scheduler, synctest fake clock, reference tree/model oracles"},
+            {"name": ENGINE_NET, "path": "/verif/sim", "serves_properties": sorted(k for k, v in CHECKS.items() if v["engine"] == ENGINE_NET),
+             "kind_free_text": "real feeders / distributor / HTTP handlers / client / omniwitness.Main inside a synctest bubble, simnet RoundTripper and in-memory listener as the only network, stub logs and distributor served from the reference tree, seeded network and storage faults"},
             {"name": ENGINE_CRASH, "path": "/verif/sim", "serves_properties": sorted(k for k, v in CHECKS.items() if v["engine"] == ENGINE_CRASH),
              "kind_free_text": "child processes of the same test binary running the real witness on file-backed SQLite under a wrapping database/sql driver and a shim SQLite VFS; real SIGKILL at numbered operations; parent reopens and checks"},
         ],
